@@ -600,6 +600,11 @@ CHECKS['C10']['level_text'] += ' A kernel job decides the up-to-date rule of one
 _DK = ' A kernel job decides the up-to-date rule of a single statement (DependencyScan::RecomputeDirty with the real build log) for every combination of time stamps - ties included, which the strictly increasing clock of the history jobs never produces -, restat / generator flags and log states, against the rule stated from scratch.'
 CHECKS['C01']['level_text'] += _DK; CHECKS['C03']['level_text'] += _DK
 
+# ---- quick-tier budget: the heaviest history jobs whose seeded changes are also caught by a cheaper quick job run in the thorough tier only
+for _p, _names in (('C01', ('generated_header_deps_midrun', 'dyndep_single_edit', 'chain_midrun')), ('C10', ('restat_with_deps_h3',)), ('C03', ('restat_with_deps_h3',))):
+    for _j in CHECKS[_p]['jobs']:
+        if _j['name'] in _names: _j['thorough_only'] = True
+
 # ---- the thorough tier as it is actually run: every job of the quick tier at the same bounds, plus the thorough_only jobs (heavier shapes, built-then-perturbed
 # states, all-subsets edits), plus deeper bounds for the byte-level kernels (C08 C09 C13 C14 C15 C16 C19/json).  Three-invocation histories of *every* pipeline shape
 # (the first version's thorough tier) take many hours on 16 cores and were never run to completion, so they are not what `--tier thorough` means any more; the
